@@ -181,17 +181,16 @@ func (o lexOracle) skipComment(i int) int {
 
 func isWS(c byte) bool { return c == ' ' || c == '\t' || c == '\n' || c == '\r' }
 
-// gapOK: whitespace is skipped only in code mode, i.e. after a non-text token and before any comment (a comment
-// switches the lexer back to text mode); a gap after a text token holds comments only.
+// gapOK (C19): the gaps between tokens hold only whitespace inside code, or comments. After a text token there is no code:
+// the gap holds comments only. Before a text token that follows a non-text token, white space alone would belong to the text.
 func (o lexOracle) gapOK(i, j int, afterText, beforeText bool) bool {
 	start := i
-	if !afterText {
-		for i <= j && isWS(o.ch(i)) {
-			i++
-		}
-	}
 	comments := 0
 	for i <= j {
+		if !afterText && isWS(o.ch(i)) {
+			i++
+			continue
+		}
 		if o.ch(i) == '{' && o.ch(i+1) == '{' && o.ch(i+2) == '-' && o.ch(i+3) == '-' {
 			k := o.skipComment(i + 2)
 			if k == 0 || k-1 > j {
